@@ -26,6 +26,7 @@ everything that follows fails) and `HeadEq` (same first success).
 -/
 import RegexVerif.Lemmas.Rewrites
 import RegexVerif.Lemmas.AutoAtomic
+import RegexVerif.Lemmas.RewriteDecisions
 
 namespace RegexVerif.Props.C05
 open RegexVerif RegexVerif.Spec
@@ -1026,5 +1027,250 @@ example : endAtomicTop (.alt (lit 97) (plus 98)) = .atomic (.alt (lit 97) (.atom
 /-- inside an Atomic group the last alternation is not wrapped again -/
 example : endAtomicTop (.atomic (.seq (lit 120) (.alt (lit 97) (star 98))))
     = .atomic (.seq (lit 120) (.alt (lit 97) (.atomic (star 98)))) := by decide
+
+/-! ## 10. the DECISIONS of the remaining tree rewrites (`Model/RewriteDecisions.lean`, leg Rw)
+
+Sections 4–7 are laws with semantic side conditions.  This section is about what tree.go DECIDES:
+`Model/RewriteDecisions.lean` mirrors, on an n-ary copy `RNode` of the engine's reduced tree, the functions
+`extractCommonPrefixText` (`factorText`), `extractCommonPrefixOneNotoneSet` (`factorSet`),
+`reduceSingleLetterAndNestedAlternations` (`mergeLetters`), `removeRedundantEmptiesAndNothings`,
+`reduceConcatenationWithAdjacentLoops` / `…Strings` (`coalesce`, `joinStrings`), `reduceAtomic` with its
+alternation block and `makeLoopAtomic`, `reduceSet`, the alternation-wrapping part of
+`eliminateEndingBacktracking` (`endElim`) and the placement of the bump-along marker (`placeBump`), with the
+side conditions the Go code tests (same node type / rune / set / min / max / options, `M == N`, left-to-right
+only, the parent-is-Atomic test, "at least three branches" …).  `toPat` is the denotation in `Spec.Pat`.
+The theorems say that every one of these functions keeps `Spec.m` of the denotation; leg Rw checks on
+every run that the functions compute what the engine computes (model tree = engine tree up to the
+auto-atomic differences validated by `cert`).
+
+`ll = false` is the variant proved here.  It leaves out the three cases that collapse DUPLICATE successes
+(merging overlapping classes `a|a ⇒ [a]`, `a*a* ⇒ a*`, a second Empty branch) — for those the ordered
+list of successes changes although its set and the order of first occurrences do not; see the examples at the
+end — and, of the adjacent-loop rules, proves "item · loop" (`aa* ⇒ a+`); the other rules are modelled
+(`ll = true`, tied by the leg) but not proved: `coalesce_sound_partial`, `mergeLetters_sound_partial`. -/
+
+open RegexVerif.RewriteDecisions
+
+/-- concrete material: `abc|abd|x` as the engine stores it -/
+def altAbcAbdX : RNode := .alt 0 [.multi 0 [97, 98, 99], .multi 0 [97, 98, 100], .chr 0 (.one 120)]
+
+/-- an environment over real code points -/
+theorem env_textOK (t : List Nat) (h : ∀ r ∈ t, r ≤ 0x10FFFF) : TextOK (env t) := h
+
+/-- **`extractCommonPrefixText` is sound**: for every alternation (children reduced, left-to-right,
+    parent not Atomic) the factored tree has the same ordered successes.  Side conditions as in Go: the
+    branches of a run start with a One/Multi (directly or as first child of a Concatenate) with the same
+    options word and share a non-empty prefix; the new inner alternation is reduced again (`reduceNode`). -/
+theorem factorText_sound (e : Env) (ht : TextOK e) (on : Bool) (fuel : Nat) (o : Nat) (cs : List RNode) (st : St) :
+    m e (toPat false (factorText (reduceNode false on false fuel) false o cs)) false st
+      = m e (toPat false (.alt o cs)) false st :=
+  NEq.eq (m_factorText e _ (redSound_reduceNode e ht on fuel) false o cs) st
+
+/-- … and under an Atomic parent (`n.Parent.T == NtAtomic`: the new inner alternation is made atomic
+    too) the atomic group keeps its successes -/
+theorem factorText_sound_atomic (e : Env) (ht : TextOK e) (on : Bool) (fuel : Nat) (o : Nat) (cs : List RNode) (st : St) :
+    m e (.atomic (toPat false (factorText (reduceNode false on false fuel) true o cs))) false st
+      = m e (.atomic (toPat false (.alt o cs))) false st :=
+  atomic_eq_of_headEq (NEq.headEq (m_factorText e _ (redSound_reduceNode e ht on fuel) true o cs)) st
+
+/-- `abc|abd|x` ⇒ `ab[cd]|x` (prefix "ab" extracted, the rest merged into a set — which keeps the `Ch` of the
+    One it grew from, `mergedOpts` —, the concatenation rebuilt) -/
+example : RNode.same (reduceNode false true false 10 false altAbcAbdX)
+    (.alt 0 [.cat 0 [.multi 0 [97, 98], .chr (99 * 65536) (.set (.base false [(99, 100)] []))], .chr 0 (.one 120)]) = true := by decide
+
+example : m (env [97, 98, 100]) (toPat false altAbcAbdX) false st0 = [⟨3, []⟩] := by decide
+
+/-- **`extractCommonPrefixOneNotoneSet` is sound**: the branches of a run are Concatenates of at least two
+    children whose first children are the SAME One/Notone/Set node or loop of one with `M == N`
+    (type, options, M, N, rune, set all equal) -/
+theorem factorSet_sound (e : Env) (ht : TextOK e) (on : Bool) (fuel : Nat) (o : Nat) (cs : List RNode) (st : St) :
+    m e (toPat false (factorSet (reduceNode false on false fuel) false o cs)) false st
+      = m e (toPat false (.alt o cs)) false st :=
+  NEq.eq (m_factorSet e _ (redSound_reduceNode e ht on fuel) false o cs) st
+
+theorem factorSet_sound_atomic (e : Env) (ht : TextOK e) (on : Bool) (fuel : Nat) (o : Nat) (cs : List RNode) (st : St) :
+    m e (.atomic (toPat false (factorSet (reduceNode false on false fuel) true o cs))) false st
+      = m e (.atomic (toPat false (.alt o cs))) false st :=
+  atomic_eq_of_headEq (NEq.headEq (m_factorSet e _ (redSound_reduceNode e ht on fuel) true o cs)) st
+
+/-- `a{2}x|a{2}y` is factored (`a{2}[xy]`), `a{2}x|a{3}y` and `a+x|a+y` are not -/
+example : RNode.same
+    (reduceNode false true false 10 false (.alt 0 [.cat 0 [.cloop 0 .greedy (.one 97) 2 (some 2), .chr 0 (.one 120)],
+      .cat 0 [.cloop 0 .greedy (.one 97) 2 (some 2), .chr 0 (.one 121)]]))
+    (.cat 0 [.cloop 0 .greedy (.one 97) 2 (some 2), .chr (120 * 65536) (.set (.base false [(120, 121)] []))]) = true := by decide
+
+example : RNode.same
+    (reduceNode false true false 10 false (.alt 0 [.cat 0 [.cloop 0 .greedy (.one 97) 2 (some 2), .chr 0 (.one 120)],
+      .cat 0 [.cloop 0 .greedy (.one 97) 3 (some 3), .chr 0 (.one 121)]]))
+    (.alt 0 [.cat 0 [.cloop 0 .greedy (.one 97) 2 (some 2), .chr 0 (.one 120)],
+      .cat 0 [.cloop 0 .greedy (.one 97) 3 (some 3), .chr 0 (.one 121)]]) = true := by decide
+
+example : RNode.same
+    (reduceNode false true false 10 false (.alt 0 [.cat 0 [.cloop 0 .greedy (.one 97) 1 none, .chr 0 (.one 120)],
+      .cat 0 [.cloop 0 .greedy (.one 97) 1 none, .chr 0 (.one 121)]]))
+    (.alt 0 [.cat 0 [.cloop 0 .greedy (.one 97) 1 none, .chr 0 (.one 120)],
+      .cat 0 [.cloop 0 .greedy (.one 97) 1 none, .chr 0 (.one 121)]]) = true := by decide
+
+/-- **`reduceSingleLetterAndNestedAlternations`, proved part**: nested alternations flattened, Nothing
+    dropped, runs of One/Set branches merged into one Set (`canonicalize`d as the engine does: sort + merge,
+    the "everything but one gap" and "everything" normal forms) WHEN the two classes are category-free and
+    disjoint.  Full statement (not proved as an equality, and false as one): the same for overlapping
+    classes and classes with categories — see `merge_overlapping_duplicates` below. -/
+theorem mergeLetters_sound_partial (e : Env) (ht : TextOK e) (rtl : Bool) (o : Nat) (cs : List RNode) (st : St) :
+    m e (toPat rtl (mkAlt o (mergeLetters false cs))) rtl st = m e (toPat rtl (.alt o cs)) rtl st :=
+  NEq.eq (nEq_mkAlt_mergeLetters e ht false rtl o cs) st
+
+/-- `a|(?:c|d)|xy|(?!)|b` ⇒ `[acd]|xy|b` -/
+example : RNode.same
+    (mkAlt 0 (mergeLetters false [.chr 0 (.one 97), .alt 0 [.chr 0 (.one 99), .chr 0 (.one 100)], .multi 0 [120, 121], .nothing,
+      .chr 0 (.one 98)]))
+    (.alt 0 [.chr (97 * 65536) (.set (.base false [(97, 97), (99, 100)] [])), .multi 0 [120, 121], .chr 0 (.one 98)]) = true := by decide
+
+/-- why the overlapping case is excluded: `a|a` has its success twice, `[a]` once — no context can tell
+    (the later duplicate leads to the same continuation), but the lists differ -/
+theorem merge_overlapping_duplicates :
+    m (env [97]) (toPat false (.alt 0 [.chr 0 (.one 97), .chr 0 (.one 97)])) false st0 = [⟨1, []⟩, ⟨1, []⟩]
+    ∧ m (env [97]) (toPat false (mkAlt 0 (mergeLetters true [.chr 0 (.one 97), .chr 0 (.one 97)]))) false st0 = [⟨1, []⟩] := by
+  decide
+
+/-- **`reduceConcatenationWithAdjacentStrings` is sound** (both directions): nested Concatenates of the same
+    direction spliced, adjacent One/Multi joined (right-to-left: the later child's text in front), Empty dropped -/
+theorem joinStrings_sound (e : Env) (rtl : Bool) (o : Nat) (cs : List RNode) (st : St) :
+    m e (toPat rtl (mkCat o (joinStrings rtl cs))) rtl st = m e (toPat rtl (.cat o cs)) rtl st := by
+  rw [m_mkCat, m_cat]; exact catEq_joinStrings e rtl cs st
+
+/-- **`reduceConcatenationWithAdjacentLoops`, proved part**: "an individual item with a loop" — `x·x{m,n}` ⇒
+    `x{m+1,n+1}` for One/Notone/Set, greedy, lazy and atomic loops, same options word, left-to-right.
+    Modelled but not proved: loop·loop, loop·item, loop·Multi prefix, item·item (`coalesce true`); the first
+    of them is not an equality of success lists — `loop_loop_duplicates`. -/
+theorem coalesce_sound_partial (e : Env) (rtl : Bool) (cs : List RNode) (st : St) :
+    mc e rtl (coalesce false rtl cs) st = mc e rtl cs st := catEq_coalesce e rtl cs st
+
+/-- `aa*b` ⇒ `a+b` -/
+example : RNode.same (reduceCat false false 0 [.chr 0 (.one 97), .cloop 0 .greedy (.one 97) 0 none, .chr 0 (.one 98)])
+    (.cat 0 [.cloop 0 .greedy (.one 97) 1 none, .chr 0 (.one 98)]) = true := by decide
+
+theorem loop_loop_duplicates :
+    m (env [97]) (toPat false (.cat 0 [.cloop 0 .greedy (.one 97) 0 none, .cloop 0 .greedy (.one 97) 0 none])) false st0
+        = [⟨1, []⟩, ⟨1, []⟩, ⟨0, []⟩]
+    ∧ m (env [97]) (toPat false (reduceCat true false 0 [.cloop 0 .greedy (.one 97) 0 none, .cloop 0 .greedy (.one 97) 0 none])) false st0
+        = [⟨1, []⟩, ⟨0, []⟩] := by decide
+
+/-- **`reduceConcatenation` (proved variant) is sound**: 0/1 children, a Nothing child, the two passes above -/
+theorem reduceCat_sound (e : Env) (rtl : Bool) (o : Nat) (cs : List RNode) (st : St) :
+    m e (toPat rtl (reduceCat false rtl o cs)) rtl st = m e (toPat rtl (.cat o cs)) rtl st :=
+  RewriteDecisions.reduceCat_sound e rtl o cs st
+
+/-- **`reduceSet` is sound**: a singleton set is One, an inverse singleton Notone -/
+theorem reduceSet_sound (e : Env) (o : Nat) (p : CP) (rtl : Bool) (st : St) :
+    m e (toPat rtl (.chr o (reduceCP p))) rtl st = m e (toPat rtl (.chr o p)) rtl st := reduceCP_chr e o p rtl st
+
+example : reduceCP (.set (.base true [(97, 97)] [])) = .notone 97 := by decide
+
+/-- **`reduceAtomic` (proved variant) is sound**: nested Atomic nodes, Empty/Nothing, `makeLoopAtomic` (a lazy
+    loop becomes the repeater of its minimum, Empty, or a Multi of 2…64 equal runes), and for an alternation
+    child, left-to-right: first branch Empty ⇒ Empty; branches after an Empty branch dropped; every run of at
+    least three branches that start with a One/Multi regrouped by first rune (stable), the alternation then
+    reduced again with the Atomic parent. -/
+theorem reduceAtomic_sound (e : Env) (ht : TextOK e) (on rtl : Bool) (fuel : Nat) (b : RNode) (st : St) :
+    m e (toPat rtl (reduceAtomic (reduceNode false on rtl fuel) false on rtl (.atomic b))) rtl st
+      = m e (toPat rtl (.atomic b)) rtl st :=
+  RewriteDecisions.reduceAtomic_sound e _ on rtl
+    (fun h => by subst h; exact redSound_reduceNode e ht on fuel) b st
+
+/-- `(?>hi|there|hello)` ⇒ `(?>h(?>i|ello)|there)`; `(?>a||c)` ⇒ `(?>a|)`; `(?>|a)` ⇒ Empty -/
+example : RNode.same
+    (reduceNode false true false 10 false (.atomic (.alt 0 [.multi 0 [104, 105], .multi 0 [116, 104, 101, 114, 101], .multi 0 [104, 101, 108, 108, 111]])))
+    (.atomic (.alt 0 [.cat 0 [.chr 0 (.one 104), .atomic (.alt 0 [.chr 0 (.one 105), .multi 0 [101, 108, 108, 111]])],
+      .multi 0 [116, 104, 101, 114, 101]])) = true := by decide
+
+example : RNode.same (reduceNode false true false 10 false (.atomic (.alt 0 [.chr 0 (.one 97), .empty, .chr 0 (.one 99)])))
+    (.atomic (.alt 0 [.chr 0 (.one 97), .empty])) = true := by decide
+
+example : RNode.same (reduceNode false true false 10 false (.atomic (.alt 0 [.empty, .chr 0 (.one 97)]))) .empty = true := by decide
+
+/-- the reordering alone (any run of branches that all start with a One/Multi): same ordered successes,
+    with or without the Atomic node — branches with a different first rune fail -/
+theorem atomicAlt_reorder_sound (e : Env) (bs : List RNode) (st : St) :
+    mA e false (reorder bs).1 st = mA e false bs st := by
+  have := aEq_reorder e bs st
+  simpa [LRel] using this
+
+/-- **one `reduce()` is sound** (proved variant): the same successes, or — for an alternation whose parent is
+    an Atomic node — the same first success -/
+theorem reduceNode_sound (e : Env) (ht : TextOK e) (on rtl : Bool) (fuel : Nat) (n : RNode) (st : St) :
+    m e (toPat rtl (reduceNode false on rtl fuel false n)) rtl st = m e (toPat rtl n) rtl st :=
+  NEq.eq (RewriteDecisions.reduceNode_sound e ht on rtl fuel false n) st
+
+theorem reduceNode_sound_atomic_parent (e : Env) (ht : TextOK e) (on rtl : Bool) (fuel : Nat) (n : RNode) :
+    HeadEq e rtl (toPat rtl (reduceNode false on rtl fuel true n)) (toPat rtl n) :=
+  NEq.headEq (RewriteDecisions.reduceNode_sound e ht on rtl fuel true n)
+
+/-- **the bottom-up pass is sound**: `reduceAll` (children first, then `reduce()` of the node, the ending walk
+    inside Atomic nodes, lookarounds and conditions) keeps the ordered successes of every pattern, in either
+    direction, in every context -/
+theorem reduceAll_sound (e : Env) (ht : TextOK e) (on dg : Bool) (fuel : Nat) (n : RNode) (rtl : Bool) (st : St) :
+    m e (toPat rtl (reduceAll false on dg fuel rtl false n)) rtl st = m e (toPat rtl n) rtl st :=
+  NEq.eq (RewriteDecisions.reduceAll_sound e ht on dg fuel n rtl false) st
+
+/-- **the ending walk keeps the first success**: the constructs in tail position wrapped in Atomic, an
+    alternation there reduced again as an atomic alternation (prefix factoring with atomic inner alternations,
+    trimming, reordering) -/
+theorem endElim_keeps_first (e : Env) (ht : TextOK e) (fuel f : Nat) (rtl pa w : Bool) (n : RNode) :
+    HeadEq e rtl (toPat rtl (endElim (reduceNode false true rtl fuel) f rtl pa w n)) (toPat rtl n) :=
+  endElim_headEq' e ht true fuel f rtl pa w n
+
+/-- `x(?:a||c)` ⇒ `x(?>a|)`: in tail position the alternation becomes atomic and loses the branch after Empty -/
+example : RNode.same (rewriteTop false true 12 false (.cat 0 [.chr 0 (.one 120), .alt 0 [.chr 0 (.one 97), .empty, .chr 0 (.one 99)]]))
+    (.cat 0 [.chr 0 (.one 120), .atomic (.alt 0 [.chr 0 (.one 97), .empty])]) = true := by decide
+
+/-- **the model of the gated rewrites keeps `find`**: for every tree, direction, start position -/
+theorem rewrites_keep_find (e : Env) (ht : TextOK e) (dg : Bool) (fuel : Nat) (rtl : Bool) (n : RNode) (start : Nat) :
+    find e (toPat rtl (rewriteTop false dg fuel rtl n)) rtl start = find e (toPat rtl n) rtl start :=
+  find_congr_head (rewriteTop_headEq e ht dg fuel rtl n) start
+
+/-- **the extended translation validator**: `n` the engine's tree with the rewrites off, `p'` its tree with
+    the rewrites on.  If `cert` accepts the pair (Lean's model of the rewrites applied to `n`, `p'`) — i.e. the
+    engine's tree is what the model decides, up to auto-atomic / ending differences that are themselves
+    justified — then both trees give the same `find` result from every start, in every environment in which the
+    oracle bits are true.  Leg Rw evaluates exactly this hypothesis on the engine's pairs of trees. -/
+theorem rewrites_certified {e : Env} {o : AutoAtomic.Oracle} (hs : o.Sound e) (ht : TextOK e) (dg : Bool) (fuel : Nat)
+    (rtl : Bool) (n : RNode) (p' : Pat)
+    (h : AutoAtomic.certTopDir o rtl (toPat rtl (rewriteTop false dg fuel rtl n)) p' = true) (start : Nat) :
+    find e (toPat rtl n) rtl start = find e p' rtl start :=
+  (rewrites_keep_find e ht dg fuel rtl n start).symm.trans (auto_atomic_certified_dir hs h start)
+
+/-- `ab|ac` at the end of a pattern against the engine's `a(?>[bc])`… here: `x(?:ab|ac)` ⇒ `xa[bc]` -/
+example : AutoAtomic.certTopDir o0 false
+    (toPat false (rewriteTop false true 12 false (.cat 0 [.chr 0 (.one 120), .alt 0 [.multi 0 [97, 98], .multi 0 [97, 99]]])))
+    (.seq (.seq (lit 120) (lit 97)) (.chr (.set (.base false [(98, 99)] []) false))) = true := by decide
+
+/-- **placing the bump-along marker changes no success** (the marker is Empty for the specification) -/
+theorem placeBump_sound (e : Env) (rtl : Bool) (n : RNode) (ia ab : Bool) (st : St) :
+    m e (toPat rtl (placeBump ia ab n)) rtl st = m e (toPat rtl n) rtl st :=
+  RewriteDecisions.placeBump_sound e rtl n ia ab st
+
+/-- **where `finalOptimize` puts the marker, resuming the scan after the loop's run is sound**: the walk
+    (through Atomic nodes and first children of Concatenates) ends at an unbounded single-character loop that
+    is the first child of a Concatenate — greedy or atomic anywhere, lazy only outside every Atomic group.  Then
+    a failed attempt at `i` implies a failed attempt at every `j` inside the run (`bumpalong_sound`,
+    `bumpalong_sound_lazy`). -/
+theorem bump_marker_sound (e : Env) (n : RNode) (k : LK) (p : CP) (lo : Nat)
+    (hsite : bumpSite false true n = some (k, p, lo)) (i j : Nat) (hij : i < j) (hj : j ≤ i + runLen e p.pred i)
+    (hfail : attempt e (toPat false n) false i = none) : attempt e (toPat false n) false j = none := by
+  obtain ⟨hF, hl⟩ := bumpSite_front n false true k p lo hsite
+  cases k with
+  | greedy => exact bumpalong_sound e p.pred lo _ hF i j hij hj hfail
+  | atomic => exact bumpalong_sound e p.pred lo _ hF i j hij hj hfail
+  | lzy => exact bumpalong_sound_lazy e p.pred true lo _ hF i j hij hj hfail
+
+/-- `(?>a+)b` gets the marker, `(?>a+?b?)c` (lazy inside Atomic) does not -/
+example : RNode.same (placeBump false true (.cat 0 [.cloop 0 .atomic (.one 97) 1 none, .chr 0 (.one 98)]))
+    (.cat 0 [.cloop 0 .atomic (.one 97) 1 none, .bump, .chr 0 (.one 98)]) = true := by decide
+
+example : bumpSite false true (.cat 0 [.atomic (.cat 0 [.cloop 0 .lzy (.one 97) 1 none, .cloop 0 .greedy (.one 98) 0 (some 1)]), .chr 0 (.one 99)])
+    = none := by decide
+
+example : bumpSite false true (.cat 0 [.cloop 0 .lzy (.one 97) 1 none, .chr 0 (.one 98)]) = some (.lzy, .one 97, 1) := by decide
 
 end RegexVerif.Props.C05
